@@ -1,13 +1,16 @@
 #!/bin/sh
-# tools/import_seeds.sh C10 ... : copy /tmp/seed-<ID>/_out/{1,2} to seeded/<ID>-{1,2} and run seedcheck on each
+# tools/import_seeds.sh [-o OFFSET] C10 ... : copy /tmp/seed-<ID>/_out/{1,2} to seeded/<ID>-{1+OFFSET,2+OFFSET}
+# and run seedcheck on each
 here="$(cd "$(dirname "$0")/.." && pwd)"
+off=0
+if [ "$1" = "-o" ]; then off="$2"; shift 2; fi
 for id in "$@"; do
   for k in 1 2; do
     src="/tmp/seed-$id/_out/$k"
     [ -f "$src/patch.diff" ] || { echo "$id-$k: no patch"; continue; }
-    dst="$here/seeded/$id-$k"
+    dst="$here/seeded/$id-$((k + off))"
     mkdir -p "$dst"; cp "$src/patch.diff" "$src/demo.py" "$src/meta.json" "$dst/"
-    echo "== $id-$k: $(/venv/bin/python -c "import json;print(json.load(open('$dst/meta.json'))['summary'][:200])")"
+    echo "== $id-$((k + off)): $(/venv/bin/python -c "import json;print(json.load(open('$dst/meta.json'))['summary'][:200])")"
     "$here/tools/seedcheck.sh" "$dst" 2>&1 | tee "$dst/seedcheck.log"
   done
 done
